@@ -459,6 +459,12 @@ class Walker:
                 del st.defs[k]
 
     def _bind(self, st: State, target, val: AVal, node=None, defexpr=None):
+        if isinstance(target, ast.Name) and self.frame[0] is not None and target.id in _declared_globals(self.frame[0]):
+            # a module-level name (`global x`): it is shared by every frame, so it lives with the facts
+            st.env.pop(target.id, None)
+            st.facts[target.id] = val
+            st.add(Event("assign", node or target, target.id, self.frame, val))
+            return
         if isinstance(target, ast.Name):
             self._kill(st, target)
             st.env[target.id] = val
@@ -1006,7 +1012,8 @@ class Walker:
                     s2 = r[2]
                     s2.add(Event("enter", item.context_expr, None, self.frame))
                     if item.optional_vars is not None:
-                        self._bind(s2, item.optional_vars, UNK, stmt, defexpr=item.context_expr)
+                        held_ = r[1] if (self.exact_loops and r[1] is not None and r[1].kind == "const") else UNK
+                        self._bind(s2, item.optional_vars, held_, stmt, defexpr=item.context_expr)
                     nxt.append(s2)
             cur = nxt
         sup = suppress_try(stmt)
@@ -1581,6 +1588,10 @@ class Walker:
                     return [("raise", type(exc).__name__, s)]
                 except Exception:
                     pass
+            if isinstance(node.func, ast.Attribute) and node.func.attr == "join" and len(recv) == 1 and recv[0].kind == "const" \
+                    and isinstance(recv[0].value, (str, bytes)) and len(args) == 1 and args[0].kind == "const" and not kws \
+                    and isinstance(args[0].value, (list, tuple)) and all(isinstance(x, type(recv[0].value)) for x in args[0].value):
+                return [("val", Const(recv[0].value.join(args[0].value)), s)]
             if isinstance(node.func, ast.Attribute) and node.func.attr in PURE_STR_METHODS and len(recv) == 1 \
                     and recv[0].kind == "const" and isinstance(recv[0].value, (str, bytes)) \
                     and all(a.kind == "const" for a in args) and not kws:
@@ -1996,6 +2007,20 @@ def _namedtuple_type(cls):
 
 
 _LIST_MUTATORS = {"append", "extend", "insert", "remove", "pop", "sort", "reverse", "clear"}
+
+
+def _declared_globals(func) -> set:
+    cached = getattr(func, "_pgv_globals", None)
+    if cached is None:
+        cached = set()
+        for n in ast.walk(func.node):
+            if isinstance(n, ast.Global):
+                cached.update(n.names)
+        try:
+            func._pgv_globals = cached
+        except Exception:
+            pass
+    return cached
 
 
 def _scratch(facts) -> dict:
